@@ -104,7 +104,7 @@ def cases(ctx):
     return out
 
 def run(ctx):
-    ctx.explanation = ("partial for part (2): exact GCD meaning, delta/vanishing-difference and run-block cost theorems are unconditional; the aggregate bound (W+8)*others + 52*runs depends on Huffman code lengths and is evaluated per instance; that the real merge stage folds divisors exactly is checked per instance by gcdExact (and, when present, by the training model's `explains`)")
+    ctx.explanation = ("all three parts are theorems now: (1) exact GCD meaning (C18, C10t) and - C18g - the literal pair_gcd / gcd(sorted) / fold_prefix_gcds_left loops proved equal to Nat.gcd / the training model; (2) C18s.c18_sparse: for a table with a single-valued run-length prefix, disjoint ranges, truthful counts, codes costing Huffman's cost for the weights with any weight E of the run-length prefix and that prefix's code of 1..2 bits (HuffCode.heavy_length_le_two: forced whenever others < 2E), the body takes <= (W+8)*others + 52*runs bits; its hypotheses are evaluated per chunk (huffopt, jlen, heavy, disj, counts) and the exact sizes compared; (3) vanishing differences => metadata only. Remaining assumption: the f64 estimate E of the number of runs is not modelled (any E with others < 2E works)")
     ctx.rule = ("enc stream on (1) lattices a+g*i incl. two lattices per chunk, merged ranges and divisors 2^e+1 near the float "
                 "rounding edge, (2) chunks of >= 2000 numbers with a 90-99.9% dominant value in scattered/clustered/end/alternating "
                 "arrangements at level >= 8, (3) sequences whose d-th wrapping differences vanish (integrated from random moments, "
@@ -142,6 +142,16 @@ def run(ctx):
                     ctx.count("sparse-premises-met")
                     if ch.get("domjump") != "1":
                         ctx.violation("dominant value (>= 90%) did not get its own run-length range", line, "domjump=1", r["impl"][:500])
+                    # hypotheses of C18s.sparse_body_bound / c18_sparse, per chunk: codes cost Huffman's cost for the weights
+                    # with SOME weight E of the run-length prefix (huffopt), that prefix's code has 1..2 bits (jlen; justified
+                    # by HuffCode.heavy_length_le_two since others < 2E: heavy), table shape (disj, counts: WFc conjuncts)
+                    if "huffopt" in ch:
+                        hyp = ch["huffopt"] == "1" and ch.get("jlen") in ("1", "2") and ch.get("heavy") == "1"
+                        ctx.count("sparse-hypotheses:" + ("hold" if hyp else "fail"))
+                        if not hyp and ch.get("domjump") == "1" and int(ch["nprefs"]) >= 2:
+                            ctx.disagree("sparse-hyp", line, "huffopt=1 jlen in 1..2 heavy=1",
+                                         "huffopt=%s jlen=%s heavy=%s huffE=%s" % (ch.get("huffopt"), ch.get("jlen"), ch.get("heavy"), ch.get("huffE")),
+                                         "hypotheses of C18s.sparse_body_bound do not hold for this chunk")
                     if bodybits > (Wp + 8) * others + 52 * runs:
                         ctx.violation("sparse chunk costs more than (W+8)*others + 52*runs bits", line,
                                       "<= %d" % ((Wp + 8) * others + 52 * runs), "bodybits=%d others=%d runs=%d" % (bodybits, others, runs))
